@@ -420,14 +420,18 @@ func windingOrderIsCorrect(ring [][2]float64, shouldBeClockwise bool) bool {
 	return wo.IsClockwise() && shouldBeClockwise || wo.IsCounterClockwise() && !shouldBeClockwise || wo.IsColinear()
 }
 
-// TODO: rewrite by using intgeoms for as long as possible
-func isHitMultiple(hitMultiple map[intgeom.Point][]int, vertex [2]float64, ringIdx int) bool {
-	intVertex := intgeom.FromGeomPoint(vertex)
-	return slices.Contains(hitMultiple[intVertex], ringIdx) || // exact match
-		slices.Contains(hitMultiple[intgeom.Point{intVertex[xAx] + 1, intVertex[yAx]}], ringIdx) || // fuzzy search
-		slices.Contains(hitMultiple[intgeom.Point{intVertex[xAx] - 1, intVertex[yAx]}], ringIdx) ||
-		slices.Contains(hitMultiple[intgeom.Point{intVertex[xAx], intVertex[yAx] + 1}], ringIdx) ||
-		slices.Contains(hitMultiple[intgeom.Point{intVertex[xAx], intVertex[yAx] - 1}], ringIdx)
+// hitMultipleVertices returns the vertices (as they appear in a ring, i.e. converted to floats the same way
+// the ring's vertices were) that the ring with ringIdx passes more than once.
+// Matching on these floats is exact; converting a ring vertex back to an int and searching fuzzily is not,
+// because for large ordinates the float -> int round trip is off by more than one unit.
+func hitMultipleVertices(hitMultiple map[intgeom.Point][]int, ringIdx int) map[[2]float64]struct{} {
+	vertices := make(map[[2]float64]struct{})
+	for intVertex, ringIdxs := range hitMultiple {
+		if slices.Contains(ringIdxs, ringIdx) {
+			vertices[intVertex.ToGeomPoint()] = struct{}{}
+		}
+	}
+	return vertices
 }
 
 // split ring into multiple rings at any point where the ring goes through the point more than once
@@ -439,8 +443,9 @@ func splitRing(ring [][2]float64, isOuter bool, hitMultiple map[intgeom.Point][]
 	stack.Set(partialRingIdx, [][2]float64{})
 	completeRings := make(map[int][][2]float64)
 	checkRing := append(ring, ring[0])
+	verticesHitMultiple := hitMultipleVertices(hitMultiple, ringIdx)
 	for vertexIdx, vertex := range checkRing {
-		if vertexIdx == 0 || !isHitMultiple(hitMultiple, vertex, ringIdx) {
+		if _, isHitMultiple := verticesHitMultiple[vertex]; vertexIdx == 0 || !isHitMultiple {
 			if partialRing, inited := stack.Get(partialRingIdx); !inited {
 				stack.Set(partialRingIdx, make([][2]float64, 0, len(checkRing)))
 			} else {
